@@ -12,11 +12,15 @@ package c16
 import (
 	"bytes"
 	"encoding/hex"
+	"encoding/json"
 	"errors"
 	"fmt"
 	"io"
+	"math/big"
+	"os"
 	"reflect"
 	"runtime"
+	"strings"
 	"testing/iotest"
 
 	grlp "github.com/ethereum/go-ethereum/rlp"
@@ -38,11 +42,31 @@ func allowance(n int, t uint64) uint64 {
 	return uint64(n)*(allocPerByte+t) + allocConst + 8*t
 }
 
+var fullWitness = os.Getenv("VERIF_FULL_WITNESS") != ""
+
+// hexw renders a byte string for a witness (long ones are cut: the case replays from its seed;
+// VERIF_FULL_WITNESS=1 prints everything during a replay).
 func hexw(b []byte) string {
-	if len(b) <= 1500 {
+	if len(b) <= 1500 || fullWitness {
 		return hex.EncodeToString(b)
 	}
 	return fmt.Sprintf("%s...(%d bytes in all; the case replays from its seed)", hex.EncodeToString(b[:1500]), len(b))
+}
+
+// hexs renders a byte string for a message.
+func hexs(b []byte) string {
+	if len(b) <= 48 {
+		return hex.EncodeToString(b)
+	}
+	return fmt.Sprintf("%s...(%d bytes)", hex.EncodeToString(b[:48]), len(b))
+}
+
+func (e *env) viol(key, what string, witness interface{}) {
+	if fullWitness {
+		j, _ := json.MarshalIndent(witness, "", " ")
+		fmt.Printf("--- %s: %s\n%s\n", key, what, j)
+	}
+	e.c.Violation(key, what, witness)
 }
 
 func strictClass(err error) string {
@@ -86,7 +110,7 @@ func (e *env) op(path string, in []byte, tsize uint64, typ string, fn func()) bo
 	e.run.Count("decodes_measured", 1)
 	e.run.Max("max_alloc_per_decode", int64(delta))
 	if lim := allowance(len(in), tsize); delta > lim {
-		e.c.Violation("alloc:"+path, fmt.Sprintf("%s allocated %d bytes for an input of %d bytes (allowance %d)", path, delta, len(in), lim),
+		e.viol("alloc:"+path, fmt.Sprintf("%s allocated %d bytes for an input of %d bytes (allowance %d)", path, delta, len(in), lim),
 			map[string]interface{}{"input": hexw(in), "type": typ, "allocated": delta, "allowance": lim})
 	}
 	return true
@@ -341,6 +365,40 @@ func (it *item) hasNonCanonicalInt() bool {
 	return false
 }
 
+// bufWrite writes an item tree through the EncoderBuffer API; strings of at most 8 bytes without a leading
+// zero go through WriteUint64, longer canonical integers through WriteBigInt, the rest through WriteBytes.
+func bufWrite(w rlp.EncoderBuffer, it *item, n *int) {
+	if it.list {
+		idx := w.List()
+		for _, k := range it.kids {
+			bufWrite(w, k, n)
+		}
+		w.ListEnd(idx)
+		return
+	}
+	*n++
+	s := it.str
+	alt := *n%2 == 0
+	switch {
+	case len(s) == 0 && alt:
+		w.WriteBool(false)
+	case len(s) == 1 && s[0] == 1 && alt:
+		w.WriteBool(true)
+	case len(s) > 0 && s[0] != 0 && len(s) <= 8 && !alt:
+		var v uint64
+		for _, b := range s {
+			v = v<<8 | uint64(b)
+		}
+		w.WriteUint64(v)
+	case len(s) > 0 && s[0] != 0 && *n%3 == 0:
+		w.WriteBigInt(new(big.Int).SetBytes(s))
+	case alt:
+		w.WriteString(string(s))
+	default:
+		w.WriteBytes(s)
+	}
+}
+
 // ---- the generic (untyped) oracle for one byte string ----
 
 type genericStats struct{ accepted bool }
@@ -368,6 +426,20 @@ func (e *env) checkGeneric(x []byte, class string) genericStats {
 			return genericStats{}
 		}
 		run.Count("strings_canonical", 1)
+		// the same tree written through the incremental EncoderBuffer API (what rlpgen-generated encoders use)
+		e.c.Guard("EncoderBuffer", func() interface{} { return hexw(x) }, func() {
+			var sink bytes.Buffer
+			w := rlp.NewEncoderBuffer(&sink)
+			n := 0
+			bufWrite(w, tree, &n)
+			viaBytes := w.ToBytes()
+			appended := w.AppendToBytes([]byte{0xee})
+			ferr := w.Flush()
+			if !bytes.Equal(viaBytes, x) || !bytes.Equal(sink.Bytes(), x) || ferr != nil || len(appended) != len(x)+1 || !bytes.Equal(appended[1:], x) {
+				e.viol("encoderbuffer-differs", fmt.Sprintf("EncoderBuffer writes %s / %s (flush err %v) for the item whose canonical encoding is %s", hexs(viaBytes), hexs(sink.Bytes()), ferr, hexs(x)), wit(nil))
+			}
+			run.Count("encoderbuffer_encodings", 1)
+		})
 	} else {
 		run.Count("strings_noncanonical:"+strictClass(serr), 1)
 	}
@@ -386,13 +458,13 @@ func (e *env) checkGeneric(x []byte, class string) genericStats {
 		}
 		switch {
 		case err == nil && serr != nil:
-			c.Violation("noncanonical-accepted:interface{}:"+strictClass(serr), fmt.Sprintf("%s into interface{} accepts a non-canonical string (%v)", pathNames[p], serr), wit(map[string]interface{}{"path": pathNames[p]}))
+			e.viol("noncanonical-accepted:interface{}:"+strictClass(serr), fmt.Sprintf("%s into interface{} accepts a non-canonical string (%v)", pathNames[p], serr), wit(map[string]interface{}{"path": pathNames[p]}))
 		case err != nil && serr == nil:
-			c.Violation("canonical-rejected:interface{}:"+pathNames[p], fmt.Sprintf("%s into interface{} rejects canonical RLP: %v", pathNames[p], err), wit(map[string]interface{}{"path": pathNames[p]}))
+			e.viol("canonical-rejected:interface{}:"+pathNames[p], fmt.Sprintf("%s into interface{} rejects canonical RLP: %v", pathNames[p], err), wit(map[string]interface{}{"path": pathNames[p]}))
 		case err == nil:
 			got, gerr := fromGeneric(v)
 			if gerr != nil || !got.equal(tree) {
-				c.Violation("decoded-value-wrong:interface{}", fmt.Sprintf("%s decodes to a different item tree (%v)", pathNames[p], gerr), wit(map[string]interface{}{"path": pathNames[p]}))
+				e.viol("decoded-value-wrong:interface{}", fmt.Sprintf("%s decodes to a different item tree (%v)", pathNames[p], gerr), wit(map[string]interface{}{"path": pathNames[p]}))
 			}
 			if firstAccepted == nil {
 				firstAccepted = v
@@ -404,7 +476,7 @@ func (e *env) checkGeneric(x []byte, class string) genericStats {
 		var err error
 		c.Guard("EncodeToBytes(generic)", func() interface{} { return hexw(x) }, func() { re, err = rlp.EncodeToBytes(firstAccepted) })
 		if err != nil || !bytes.Equal(re, x) {
-			c.Violation("reencode-differs:interface{}", fmt.Sprintf("Encode(Decode(x)) != x for interface{}: %x (err %v)", re, err), wit(nil))
+			e.viol("reencode-differs:interface{}", fmt.Sprintf("Encode(Decode(x)) != x for interface{}: %x (err %v)", re, err), wit(nil))
 		}
 	}
 
@@ -416,12 +488,12 @@ func (e *env) checkGeneric(x []byte, class string) genericStats {
 		if e.op("interface{}:Decode(reader)", x, 64, "interface{}", func() { err = rlp.Decode(bytes.NewReader(x), &v) }) {
 			switch {
 			case err == nil && perr != nil:
-				c.Violation("noncanonical-accepted:Decode(reader):"+strictClass(perr), "rlp.Decode accepts a non-canonical first value", wit(nil))
+				e.viol("noncanonical-accepted:Decode(reader):"+strictClass(perr), "rlp.Decode accepts a non-canonical first value", wit(nil))
 			case err != nil && perr == nil:
-				c.Violation("canonical-rejected:Decode(reader)", fmt.Sprintf("rlp.Decode rejects a canonical first value of %d bytes: %v", n, err), wit(nil))
+				e.viol("canonical-rejected:Decode(reader)", fmt.Sprintf("rlp.Decode rejects a canonical first value of %d bytes: %v", n, err), wit(nil))
 			case err == nil:
 				if got, gerr := fromGeneric(v); gerr != nil || !got.equal(first) {
-					c.Violation("decoded-value-wrong:Decode(reader)", "rlp.Decode decodes the first value to a different tree", wit(nil))
+					e.viol("decoded-value-wrong:Decode(reader)", "rlp.Decode decodes the first value to a different tree", wit(nil))
 				}
 			}
 		}
@@ -433,10 +505,12 @@ func (e *env) checkGeneric(x []byte, class string) genericStats {
 				err = rlp.NewStream(&opaqueBR{bytes.NewReader(x)}, uint64(L)).Decode(&v)
 			}) {
 				switch {
+				case err == nil && lerr == errMissing:
+					e.viol("input-limit-not-enforced", fmt.Sprintf("Stream with limit %d decodes a value that does not lie within the limit", L), wit(map[string]interface{}{"limit": L}))
 				case err == nil && lerr != nil:
-					c.Violation("input-limit-not-enforced", fmt.Sprintf("Stream with limit %d decodes a value that does not lie within the limit (%v)", L, lerr), wit(map[string]interface{}{"limit": L}))
+					e.viol("noncanonical-accepted:Stream(limit):"+strictClass(lerr), fmt.Sprintf("Stream with limit %d accepts a non-canonical first value (%v)", L, lerr), wit(map[string]interface{}{"limit": L}))
 				case err != nil && lerr == nil:
-					c.Violation("canonical-rejected:Stream(limit)", fmt.Sprintf("Stream with limit %d rejects a canonical value lying within the limit: %v", L, err), wit(map[string]interface{}{"limit": L}))
+					e.viol("canonical-rejected:Stream(limit)", fmt.Sprintf("Stream with limit %d rejects a canonical value lying within the limit: %v", L, err), wit(map[string]interface{}{"limit": L}))
 				}
 			}
 		}
@@ -450,11 +524,17 @@ func (e *env) checkGeneric(x []byte, class string) genericStats {
 		if e.op("RawValue:DecodeBytes", x, 64, "rlp.RawValue", func() { err = rlp.DecodeBytes(x, &rv) }) {
 			switch {
 			case err == nil && sherr != nil:
-				c.Violation("noncanonical-accepted:RawValue:"+strictClass(sherr), fmt.Sprintf("DecodeBytes into RawValue accepts a non-canonical header (%v)", sherr), wit(nil))
+				e.viol("noncanonical-accepted:RawValue:"+strictClass(sherr), fmt.Sprintf("DecodeBytes into RawValue accepts a non-canonical header (%v)", sherr), wit(nil))
 			case err != nil && sherr == nil:
-				c.Violation("canonical-rejected:RawValue", fmt.Sprintf("DecodeBytes into RawValue rejects a canonical value: %v", err), wit(nil))
+				e.viol("canonical-rejected:RawValue", fmt.Sprintf("DecodeBytes into RawValue rejects a canonical value: %v", err), wit(nil))
+			case err == nil && serr == errSingleWrap:
+				run.Count("rawvalue_accepts_single_byte_wrapped(documented:content-not-verified)", 1)
+				fallthrough
 			case err == nil && !bytes.Equal(rv, x):
-				c.Violation("decoded-value-wrong:RawValue", fmt.Sprintf("RawValue %x differs from the input", []byte(rv)), wit(nil))
+				if bytes.Equal(rv, x) {
+					break
+				}
+				e.viol("decoded-value-wrong:RawValue", fmt.Sprintf("RawValue %x differs from the input", []byte(rv)), wit(nil))
 			}
 		}
 	}
@@ -466,11 +546,11 @@ func (e *env) checkGeneric(x []byte, class string) genericStats {
 		if e.op("raw-api-walk", x, 64, "Split/CountValues", func() { got, err = rawWalk(x, 0) }) {
 			switch {
 			case err == nil && serr != nil:
-				c.Violation("noncanonical-accepted:Split/CountValues:"+strictClass(serr), fmt.Sprintf("a full walk with Split/SplitList/CountValues accepts a non-canonical string (%v)", serr), wit(nil))
+				e.viol("noncanonical-accepted:Split/CountValues:"+strictClass(serr), fmt.Sprintf("a full walk with Split/SplitList/CountValues accepts a non-canonical string (%v)", serr), wit(nil))
 			case err != nil && serr == nil:
-				c.Violation("canonical-rejected:Split/CountValues", fmt.Sprintf("raw API rejects canonical RLP: %v", err), wit(nil))
+				e.viol("canonical-rejected:Split/CountValues", fmt.Sprintf("raw API rejects canonical RLP: %v", err), wit(nil))
 			case err == nil && !got.equal(tree):
-				c.Violation("decoded-value-wrong:Split/CountValues", "raw API walk gives a different item tree", wit(nil))
+				e.viol("decoded-value-wrong:Split/CountValues", "raw API walk gives a different item tree", wit(nil))
 			}
 		}
 		// SplitUint64 on the first value
@@ -481,12 +561,12 @@ func (e *env) checkGeneric(x []byte, class string) genericStats {
 		wantOK := perr == nil && !first.list && len(first.str) <= 8 && !(len(first.str) > 0 && first.str[0] == 0)
 		switch {
 		case err == nil && !wantOK:
-			c.Violation("noncanonical-accepted:SplitUint64", fmt.Sprintf("SplitUint64 accepts (value %d) what is not a canonical integer", u), wit(nil))
+			e.viol("noncanonical-accepted:SplitUint64", fmt.Sprintf("SplitUint64 accepts (value %d) what is not a canonical integer", u), wit(nil))
 		case err != nil && wantOK:
-			c.Violation("canonical-rejected:SplitUint64", fmt.Sprintf("SplitUint64 rejects a canonical integer: %v", err), wit(nil))
+			e.viol("canonical-rejected:SplitUint64", fmt.Sprintf("SplitUint64 rejects a canonical integer: %v", err), wit(nil))
 		case err == nil:
 			if !bytes.Equal(beBytes(u), first.str) || len(rest) != len(x)-n {
-				c.Violation("decoded-value-wrong:SplitUint64", fmt.Sprintf("SplitUint64 = %d, rest %d bytes", u, len(rest)), wit(nil))
+				e.viol("decoded-value-wrong:SplitUint64", fmt.Sprintf("SplitUint64 = %d, rest %d bytes", u, len(rest)), wit(nil))
 			}
 		}
 	}
@@ -517,15 +597,15 @@ func (e *env) checkGeneric(x []byte, class string) genericStats {
 			want := serr == nil && !(mode == wUint && tree.hasNonCanonicalInt())
 			switch {
 			case err == errSizeBeyondInput:
-				c.Violation("input-limit-not-enforced:Stream.Kind", "Stream.Kind returns a size beyond the input limit without error", wit(map[string]interface{}{"walker": name}))
+				e.viol("input-limit-not-enforced:Stream.Kind", "Stream.Kind returns a size beyond the input limit without error", wit(map[string]interface{}{"walker": name}))
 			case err == nil && serr != nil:
-				c.Violation("noncanonical-accepted:"+name+":"+strictClass(serr), fmt.Sprintf("%s accepts a non-canonical string (%v)", name, serr), wit(nil))
+				e.viol("noncanonical-accepted:"+name+":"+strictClass(serr), fmt.Sprintf("%s accepts a non-canonical string (%v)", name, serr), wit(nil))
 			case err == nil && !want:
-				c.Violation("noncanonical-int-accepted:Stream.Uint", "Stream.Uint accepts an integer with a leading zero byte", wit(nil))
+				e.viol("noncanonical-int-accepted:Stream.Uint", "Stream.Uint accepts an integer with a leading zero byte", wit(nil))
 			case err != nil && want:
-				c.Violation("canonical-rejected:"+name, fmt.Sprintf("%s rejects canonical RLP: %v", name, err), wit(nil))
+				e.viol("canonical-rejected:"+name, fmt.Sprintf("%s rejects canonical RLP: %v", name, err), wit(nil))
 			case err == nil && !got.equal(tree):
-				c.Violation("decoded-value-wrong:"+name, "Stream walk gives a different item tree", wit(nil))
+				e.viol("decoded-value-wrong:"+name, "Stream walk gives a different item tree", wit(nil))
 			}
 		}
 	}
@@ -558,7 +638,11 @@ type tcase struct {
 }
 
 func newTcase(d *tdesc) *tcase {
-	return &tcase{d: d, typ: d.String(), inj: d.injective(), raw: d.hasRaw(), geth: !d.hasOptional(), tsize: d.deepSize()}
+	// go-ethereum v1.9.15 cannot be fed types containing [1]byte: its decodeByteArray calls s.Uint() for a single
+	// byte and ignores the error for 0x00 without consuming the byte, so a [][1]byte element 0x00 is read
+	// for ever (the slice grows until the process is out of memory). Fixed upstream later; go-kardia has the fix.
+	has1 := d.any(func(t *tdesc, _ *fdesc) bool { return t != nil && t.k == tByteArr && t.n == 1 })
+	return &tcase{d: d, typ: d.String(), inj: d.injective(), raw: d.hasRaw(), geth: !d.hasOptional() && !has1, tsize: d.deepSize()}
 }
 
 func (t *tcase) newPtr(fl int) reflect.Value { return reflect.New(t.d.rtype(fl)) }
@@ -585,38 +669,41 @@ func (e *env) checkValue(t *tcase, v reflect.Value, g *vgen) []byte {
 		return nil
 	}
 	if err != nil {
-		c.Violation("encode-error", "EncodeToBytes fails on a supported value: "+err.Error(), wit(nil, ""))
+		e.viol("encode-error", "EncodeToBytes fails on a supported value: "+err.Error(), wit(nil, ""))
 		return nil
 	}
 	run.Count("values_encoded", 1)
 	if !bytes.Equal(enc, model) {
-		c.Violation("encoding-differs-from-model", fmt.Sprintf("encoding differs from the documented rules: got %s, expected %s", hexw(enc), hexw(model)), wit(enc, "expected "+hexw(model)))
+		e.viol("encoding-differs-from-model", fmt.Sprintf("encoding differs from the documented rules: got %s, expected %s", hexs(enc), hexs(model)), wit(enc, "expected "+hexw(model)))
 		return nil
 	}
 	if _, serr := strictDecode(enc); serr != nil && !t.raw {
-		c.Violation("own-encoding-not-canonical", "the encoder's output is not canonical RLP: "+serr.Error(), wit(enc, ""))
+		e.viol("own-encoding-not-canonical", "the encoder's output is not canonical RLP: "+serr.Error(), wit(enc, ""))
 	}
 	// determinism: again after other work on the pooled buffers, through every encoder entry point
 	c.Guard("Encode (other entry points)", func() interface{} { return wit(enc, "") }, func() {
 		rlp.EncodeToBytes([]interface{}{uint64(7), "stir the buffer pool", []interface{}{[]byte{1, 2, 3}}})
 		if b, err := rlp.EncodeToBytes(p.Interface()); err != nil || !bytes.Equal(b, enc) {
-			c.Violation("encoding-nondeterministic:EncodeToBytes", fmt.Sprintf("second EncodeToBytes gives %s (err %v)", hexw(b), err), wit(enc, ""))
+			e.viol("encoding-nondeterministic:EncodeToBytes", fmt.Sprintf("second EncodeToBytes gives %s (err %v)", hexs(b), err), wit(enc, ""))
 		}
 		var buf bytes.Buffer
 		if err := rlp.Encode(&buf, p.Interface()); err != nil || !bytes.Equal(buf.Bytes(), enc) {
-			c.Violation("encoding-nondeterministic:Encode(writer)", fmt.Sprintf("Encode(io.Writer) gives %s (err %v)", hexw(buf.Bytes()), err), wit(enc, ""))
+			e.viol("encoding-nondeterministic:Encode(writer)", fmt.Sprintf("Encode(io.Writer) gives %s (err %v)", hexs(buf.Bytes()), err), wit(enc, ""))
 		}
 		size, rd, err := rlp.EncodeToReader(p.Interface())
 		if err == nil {
-			b, _ := io.ReadAll(iotest.DataErrReader(rd))
+			b, _ := io.ReadAll(iotest.OneByteReader(rd))
 			if size != len(enc) || !bytes.Equal(b, enc) {
-				c.Violation("encoding-nondeterministic:EncodeToReader", fmt.Sprintf("EncodeToReader gives size %d, %s", size, hexw(b)), wit(enc, ""))
+				e.viol("encoding-nondeterministic:EncodeToReader", fmt.Sprintf("EncodeToReader gives size %d, %s", size, hexs(b)), wit(enc, ""))
 			}
 		} else {
-			c.Violation("encoding-nondeterministic:EncodeToReader", "EncodeToReader fails: "+err.Error(), wit(enc, ""))
+			e.viol("encoding-nondeterministic:EncodeToReader", "EncodeToReader fails: "+err.Error(), wit(enc, ""))
 		}
-		if b, err := rlp.EncodeToBytes(p.Elem().Interface()); t.d.k != tIface && (err != nil || !bytes.Equal(b, enc)) {
-			c.Violation("encoding-nondeterministic:by-value", fmt.Sprintf("encoding the value instead of the pointer gives %s (err %v)", hexw(b), err), wit(enc, ""))
+		if t.d.k == tIface {
+			return // EncodeToBytes(nil) is a caller error
+		}
+		if b, err := rlp.EncodeToBytes(p.Elem().Interface()); err != nil || !bytes.Equal(b, enc) {
+			e.viol("encoding-nondeterministic:by-value", fmt.Sprintf("encoding the value instead of the pointer gives %s (err %v)", hexs(b), err), wit(enc, ""))
 		}
 	})
 	// reference implementation, common subset
@@ -629,7 +716,7 @@ func (e *env) checkValue(t *tcase, v reflect.Value, g *vgen) []byte {
 		c.Guard("geth.EncodeToBytes", func() interface{} { return wit(enc, "") }, func() { genc, gerr = grlp.EncodeToBytes(gp.Interface()) })
 		run.Count("geth_encodings_compared", 1)
 		if gerr != nil || !bytes.Equal(genc, enc) {
-			c.Violation("encoding-differs-from-geth", fmt.Sprintf("go-ethereum v1.9.15 encodes the same value as %s (err %v)", hexw(genc), gerr), wit(enc, ""))
+			e.viol("encoding-differs-from-geth", fmt.Sprintf("go-ethereum v1.9.15 encodes the same value as %s (err %v)", hexs(genc), gerr), wit(enc, ""))
 		}
 	}
 
@@ -640,18 +727,33 @@ func (e *env) checkValue(t *tcase, v reflect.Value, g *vgen) []byte {
 		return enc
 	}
 	if derr != nil {
-		c.Violation("roundtrip-decode-error", "Decode(Encode(v)) fails: "+derr.Error(), wit(enc, ""))
+		e.viol("roundtrip-decode-error", "Decode(Encode(v)) fails: "+derr.Error(), wit(enc, ""))
 		return enc
 	}
 	if diff := eqNorm(t.d, nil, v, fresh.Elem(), "v"); diff != "" {
-		c.Violation("roundtrip-value-differs", "Decode(Encode(v)) != v: "+diff, wit(enc, fmt.Sprintf("decoded %+v", fresh.Elem().Interface())))
+		e.viol("roundtrip-value-differs", "Decode(Encode(v)) != v: "+diff, wit(enc, fmt.Sprintf("decoded %+v", fresh.Elem().Interface())))
 		return enc
 	}
 	if !ignoredUntouched(t.d, reflect.Zero(t.d.rtype(0)), fresh.Elem()) {
-		c.Violation("ignored-field-written", "a field tagged rlp:\"-\" was written by the decoder", wit(enc, ""))
+		e.viol("ignored-field-written", "a field tagged rlp:\"-\" was written by the decoder", wit(enc, ""))
 	}
-	if re, err := kEncode(fresh.Interface()); err != nil || !bytes.Equal(re, enc) {
-		c.Violation("roundtrip-reencode-differs", fmt.Sprintf("Encode(Decode(Encode(v))) = %s (err %v)", hexw(re), err), wit(enc, ""))
+	re0, err := kEncode(fresh.Interface())
+	if err != nil || (t.inj && !bytes.Equal(re0, enc)) {
+		e.viol("roundtrip-reencode-differs", fmt.Sprintf("Encode(Decode(Encode(v))) = %s (err %v)", hexs(re0), err), wit(enc, "re-encoded "+hexw(re0)))
+		return enc
+	}
+	if !bytes.Equal(re0, enc) {
+		// only with optional fields: a non-nil pointer to an empty value under `nil,optional` comes back nil and is then
+		// omitted (two documented normalisations combined). The re-encoding must be a fixed point denoting the same value.
+		again := t.newPtr(0)
+		if err := rlp.DecodeBytes(re0, again.Interface()); err != nil {
+			e.viol("roundtrip-reencode-differs", "the re-encoding of the decoded value does not decode: "+err.Error(), wit(enc, "re-encoded "+hexw(re0)))
+		} else if diff := eqNorm(t.d, nil, v, again.Elem(), "v"); diff != "" {
+			e.viol("roundtrip-value-differs", "second generation differs: "+diff, wit(enc, "re-encoded "+hexw(re0)))
+		} else if re1, _ := kEncode(again.Interface()); !bytes.Equal(re1, re0) {
+			e.viol("reencode-not-idempotent", fmt.Sprintf("third generation %s differs from the second %s", hexs(re1), hexs(re0)), wit(enc, "re-encoded "+hexw(re0)))
+		}
+		run.Count("optional_reencoding_shorter", 1)
 	}
 	run.Count("values_roundtripped", 1)
 
@@ -664,11 +766,11 @@ func (e *env) checkValue(t *tcase, v reflect.Value, g *vgen) []byte {
 	var derr2 error
 	if e.op("roundtrip:DecodeBytes(reused target)", enc, t.tsize, t.typ, func() { derr2 = rlp.DecodeBytes(enc, dirty.Interface()) }) {
 		if derr2 != nil {
-			c.Violation("reused-target-decode-error", "decoding into a non-zero target fails: "+derr2.Error(), wit(enc, fmt.Sprintf("target before: %+v", dv.Interface())))
+			e.viol("reused-target-decode-error", "decoding into a non-zero target fails: "+derr2.Error(), wit(enc, fmt.Sprintf("target before: %+v", dv.Interface())))
 		} else if diff := eqNorm(t.d, nil, v, dirty.Elem(), "v"); diff != "" {
-			c.Violation("reused-target-value-differs", "decoding into a non-zero target leaves stale data: "+diff, wit(enc, fmt.Sprintf("target before: %+v", dv.Interface())))
+			e.viol("reused-target-value-differs", "decoding into a non-zero target leaves stale data: "+diff, wit(enc, fmt.Sprintf("target before: %+v", dv.Interface())))
 		} else if !ignoredUntouched(t.d, before, dirty.Elem()) {
-			c.Violation("ignored-field-written", "a field tagged rlp:\"-\" was written by the decoder", wit(enc, ""))
+			e.viol("ignored-field-written", "a field tagged rlp:\"-\" was written by the decoder", wit(enc, ""))
 		}
 		run.Count("reused_target_decodes", 1)
 	}
@@ -680,9 +782,9 @@ func (e *env) checkValue(t *tcase, v reflect.Value, g *vgen) []byte {
 			continue
 		}
 		if err != nil {
-			c.Violation("roundtrip-decode-error:"+pathNames[pth], "decoding the encoder's output fails: "+err.Error(), wit(enc, ""))
-		} else if re, err := kEncode(tgt.Interface()); err != nil || !bytes.Equal(re, enc) {
-			c.Violation("roundtrip-reencode-differs:"+pathNames[pth], fmt.Sprintf("re-encoding gives %s (err %v)", hexw(re), err), wit(enc, ""))
+			e.viol("roundtrip-decode-error:"+pathNames[pth], "decoding the encoder's output fails: "+err.Error(), wit(enc, ""))
+		} else if re, err := kEncode(tgt.Interface()); err != nil || !bytes.Equal(re, re0) {
+			e.viol("roundtrip-reencode-differs:"+pathNames[pth], fmt.Sprintf("re-encoding gives %s (err %v)", hexs(re), err), wit(enc, ""))
 		}
 	}
 	// the reference decoder reads go-kardia's encoding
@@ -692,12 +794,12 @@ func (e *env) checkValue(t *tcase, v reflect.Value, g *vgen) []byte {
 		c.Guard("geth.DecodeBytes", func() interface{} { return wit(enc, "") }, func() { gerr = grlp.DecodeBytes(enc, gt.Interface()) })
 		if gerr != nil {
 			if !gethKnownDecodeBug(t.d, enc) {
-				c.Violation("geth-rejects-own-encoding", "go-ethereum v1.9.15 cannot decode go-kardia's encoding: "+gerr.Error(), wit(enc, ""))
+				e.viol("geth-rejects-own-encoding", "go-ethereum v1.9.15 cannot decode go-kardia's encoding: "+gerr.Error(), wit(enc, ""))
 			} else {
 				run.Count("geth_wrong:[1]byte-zero", 1)
 			}
 		} else if re, err := grlp.EncodeToBytes(gt.Interface()); err != nil || !bytes.Equal(re, enc) {
-			c.Violation("geth-roundtrip-differs", fmt.Sprintf("go-ethereum decodes and re-encodes go-kardia's encoding as %s (err %v)", hexw(re), err), wit(enc, ""))
+			e.viol("geth-roundtrip-differs", fmt.Sprintf("go-ethereum decodes and re-encodes go-kardia's encoding as %s (err %v)", hexs(re), err), wit(enc, ""))
 		}
 	}
 	return enc
@@ -747,7 +849,7 @@ func (e *env) checkTyped(t *tcase, x []byte, class string) {
 		}
 		run.Count("typed_strings_accepted", 1)
 		if serr != nil && !t.raw {
-			c.Violation("noncanonical-accepted:typed:"+strictClass(serr), fmt.Sprintf("%s accepts a non-canonical string (%v)", pathNames[pth], serr), wit(pathNames[pth], fmt.Sprintf("decoded %+v", tgt.Elem().Interface())))
+			e.viol("noncanonical-accepted:typed:"+strictClass(serr), fmt.Sprintf("%s accepts a non-canonical string (%v)", pathNames[pth], serr), wit(pathNames[pth], fmt.Sprintf("decoded %+v", tgt.Elem().Interface())))
 			continue
 		}
 		var re []byte
@@ -756,7 +858,7 @@ func (e *env) checkTyped(t *tcase, x []byte, class string) {
 			continue
 		}
 		if rerr != nil {
-			c.Violation("decoded-value-not-encodable", "the decoder produced a value the encoder refuses: "+rerr.Error(), wit(pathNames[pth], ""))
+			e.viol("decoded-value-not-encodable", "the decoder produced a value the encoder refuses: "+rerr.Error(), wit(pathNames[pth], ""))
 			continue
 		}
 		if bytes.Equal(re, x) {
@@ -764,23 +866,23 @@ func (e *env) checkTyped(t *tcase, x []byte, class string) {
 			continue
 		}
 		if t.inj {
-			c.Violation("accepted-not-the-encoding-of-decoded-value", fmt.Sprintf("%s accepts x but Encode(Decode(x)) = %s", pathNames[pth], hexw(re)),
+			e.viol("accepted-not-the-encoding-of-decoded-value", fmt.Sprintf("%s accepts x but Encode(Decode(x)) = %s", pathNames[pth], hexs(re)),
 				wit(pathNames[pth], fmt.Sprintf("decoded %+v", tgt.Elem().Interface())))
 			continue
 		}
 		// type with optional fields: the explicit form of trailing zero fields is accepted by design; require a fixed point
 		t2 := t.newPtr(0)
 		if err := rlp.DecodeBytes(re, t2.Interface()); err != nil {
-			c.Violation("reencoded-value-not-decodable", "Encode(Decode(x)) does not decode: "+err.Error(), wit(pathNames[pth], "re-encoding "+hexw(re)))
+			e.viol("reencoded-value-not-decodable", "Encode(Decode(x)) does not decode: "+err.Error(), wit(pathNames[pth], "re-encoding "+hexw(re)))
 		} else if re2, _ := kEncode(t2.Interface()); !bytes.Equal(re2, re) {
-			c.Violation("reencode-not-idempotent", fmt.Sprintf("Encode(Decode(Encode(Decode(x)))) = %s differs from Encode(Decode(x)) = %s", hexw(re2), hexw(re)), wit(pathNames[pth], ""))
+			e.viol("reencode-not-idempotent", fmt.Sprintf("Encode(Decode(Encode(Decode(x)))) = %s differs from Encode(Decode(x)) = %s", hexs(re2), hexs(re)), wit(pathNames[pth], ""))
 		}
 		run.Count("optional_explicit_form_accepted", 1)
 	}
 	if acceptedCanon {
 		run.Nontrivial("t|" + t.typ + "|" + hexw(x))
 		for i, pth := range rejected {
-			c.Violation("canonical-encoding-rejected:"+pathNames[pth], fmt.Sprintf("x is the encoding of a value (another path decodes it and re-encodes to x) but %s rejects it: %v", pathNames[pth], rejectedErr[i]), wit(pathNames[pth], ""))
+			e.viol("canonical-encoding-rejected:"+pathNames[pth], fmt.Sprintf("x is the encoding of a value (another path decodes it and re-encodes to x) but %s rejects it: %v", pathNames[pth], rejectedErr[i]), wit(pathNames[pth], ""))
 		}
 	}
 	// accept/reject differential with go-ethereum on the common subset, triaged against the specification
@@ -793,7 +895,7 @@ func (e *env) checkTyped(t *tcase, x []byte, class string) {
 			if gerr == nil {
 				gre, _ := grlp.EncodeToBytes(gt.Interface())
 				if serr == nil && bytes.Equal(gre, x) {
-					c.Violation("canonical-encoding-rejected:geth-accepts", fmt.Sprintf("go-ethereum decodes x and re-encodes it to x, go-kardia rejects it: %v", kerr0), wit("DecodeBytes", ""))
+					e.viol("canonical-encoding-rejected:geth-accepts", fmt.Sprintf("go-ethereum decodes x and re-encodes it to x, go-kardia rejects it: %v", kerr0), wit("DecodeBytes", ""))
 				} else {
 					run.Count("geth_wrong:accepts-noncanonical", 1)
 					run.Distinct("geth_disagreement_inputs", t.typ+"|"+hexw(x))
@@ -803,7 +905,7 @@ func (e *env) checkTyped(t *tcase, x []byte, class string) {
 				if gethKnownDecodeBug(t.d, x) {
 					run.Count("geth_wrong:[1]byte-zero", 1)
 				} else if acceptedCanon {
-					c.Violation("geth-rejects-canonical-encoding", fmt.Sprintf("go-kardia accepts x (= Encode(Decode(x))) but go-ethereum v1.9.15 rejects it: %v — triage against the RLP specification", gerr), wit("geth", ""))
+					e.viol("geth-rejects-canonical-encoding", fmt.Sprintf("go-kardia accepts x (= Encode(Decode(x))) but go-ethereum v1.9.15 rejects it: %v — triage against the RLP specification", gerr), wit("geth", ""))
 				}
 			}
 		}
@@ -977,7 +1079,7 @@ func groupValues(c *core.Case) {
 		return
 	}
 	if werr != nil {
-		c.Violation("generated-type-refused", "a type of the grammar is refused by the encoder: "+werr.Error(), map[string]interface{}{"type": t.typ})
+		e.viol("generated-type-refused", "a type of the grammar is refused by the encoder: "+werr.Error(), map[string]interface{}{"type": t.typ})
 		return
 	}
 	nontrivial := false
@@ -1005,7 +1107,7 @@ func groupValues(c *core.Case) {
 				var err error
 				c.Guard("EncodeToBytes(negative big.Int)", func() interface{} { return t.typ }, func() { _, err = rlp.EncodeToBytes(nv.Interface()) })
 				if err != rlp.ErrNegativeBigInt {
-					c.Violation("negative-bigint-encoded", fmt.Sprintf("a negative big.Int must be refused with ErrNegativeBigInt, got %v", err), map[string]interface{}{"type": t.typ, "value": fmt.Sprintf("%+v", nv.Elem().Interface())})
+					e.viol("negative-bigint-encoded", fmt.Sprintf("a negative big.Int must be refused with ErrNegativeBigInt, got %v", err), map[string]interface{}{"type": t.typ, "value": fmt.Sprintf("%+v", nv.Elem().Interface())})
 				}
 				run.Count("negative_bigint_refused", 1)
 			}
@@ -1096,10 +1198,10 @@ func groupAdversarial(c *core.Case) {
 				}
 				if err == nil {
 					if _, serr := strictDecode(x); serr != nil && i != 9 && i != 10 && i != 7 {
-						c.Violation("noncanonical-accepted:typed:"+strictClass(serr), fmt.Sprintf("%s accepts a non-canonical string (%v)", name, serr), map[string]interface{}{"input": hexw(x), "class": class})
+						e.viol("noncanonical-accepted:typed:"+strictClass(serr), fmt.Sprintf("%s accepts a non-canonical string (%v)", name, serr), map[string]interface{}{"input": hexw(x), "class": class})
 					}
 					if re, rerr := rlp.EncodeToBytes(tgt); rerr != nil || !bytes.Equal(re, x) {
-						c.Violation("accepted-not-the-encoding-of-decoded-value", fmt.Sprintf("%s accepts x but Encode(Decode(x)) differs (err %v)", name, rerr), map[string]interface{}{"input": hexw(x), "class": class, "reencoded": hexw(re)})
+						e.viol("accepted-not-the-encoding-of-decoded-value", fmt.Sprintf("%s accepts x but Encode(Decode(x)) differs (err %v)", name, rerr), map[string]interface{}{"input": hexw(x), "class": class, "reencoded": hexw(re)})
 					}
 				}
 			}
@@ -1168,7 +1270,7 @@ func groupAdversarial(c *core.Case) {
 			var err error
 			c.Guard("EncodeToBytes(recursive type)", nil, func() { enc, err = rlp.EncodeToBytes(head) })
 			if err != nil {
-				c.Violation("encode-error:recursive-type", err.Error(), depth)
+				e.viol("encode-error:recursive-type", err.Error(), depth)
 			} else {
 				var back recT
 				var derr error
@@ -1181,14 +1283,14 @@ func groupAdversarial(c *core.Case) {
 						n++
 					}
 					if derr != nil || n != depth {
-						c.Violation("roundtrip-value-differs:recursive-type", fmt.Sprintf("recursive type with %d links decodes to %d links (err %v)", depth, n, derr), hexw(enc))
+						e.viol("roundtrip-value-differs:recursive-type", fmt.Sprintf("recursive type with %d links decodes to %d links (err %v)", depth, n, derr), hexw(enc))
 					}
 					var g recT
 					if gerr := grlp.DecodeBytes(enc, &g); gerr != nil {
-						c.Violation("geth-rejects-own-encoding", "recursive type: "+gerr.Error(), hexw(enc))
+						e.viol("geth-rejects-own-encoding", "recursive type: "+gerr.Error(), hexw(enc))
 					}
 					if genc, _ := grlp.EncodeToBytes(head); !bytes.Equal(genc, enc) {
-						c.Violation("encoding-differs-from-geth", "recursive type", hexw(enc))
+						e.viol("encoding-differs-from-geth", "recursive type", hexw(enc))
 					}
 				}
 				run.Count("recursive_type_roundtrips", 1)
@@ -1209,14 +1311,21 @@ func Main() {
 	r.Assume(fmt.Sprintf("allocation allowance per decode: (%d + T)*len(input) + %d + 8*T bytes, T = in-memory size of one value of the target type", allocPerByte, allocConst))
 	r.Assume("uint256.Int (holiman v1.1.1) has EncodeRLP but lib/rlp has no decoder for it: encode-only, checked against the integer encoding in the fixed corpus")
 
-	child := core.Opts{Procs: 8, HangIsViolation: true, StallSec: 120, MemMB: 4096}
-	r.Cases("fixed", fixedCases, child, groupFixed)
-	r.Cases("rewrites", len(corpusItems()), child, groupRewrites)
-	r.Cases("exhaustive", 64, child, groupExhaustive)
-	r.Cases("adversarial", 2*len(hugeSizes)+r.N(20, 28), child, groupAdversarial)
-	r.Cases("values", r.N(300, 20000), child, groupValues)
-	r.Cases("strings", r.N(50000, 20000000)/stringsPerCase, child, groupStrings)
-	r.Cases("chain", r.N(400, 40000), child, groupChain)
+	child := core.Opts{Procs: r.N(8, 16), HangIsViolation: true, StallSec: 120, MemMB: 4096}
+	// development aid: VERIF_C16_GROUPS=values,strings runs only those groups (the floors then report what is missing)
+	sel := os.Getenv("VERIF_C16_GROUPS")
+	cases := func(name string, n int, fn func(*core.Case)) {
+		if sel == "" || strings.Contains(","+sel+",", ","+name+",") {
+			r.Cases(name, n, child, fn)
+		}
+	}
+	cases("fixed", fixedCases, groupFixed)
+	cases("rewrites", len(corpusItems()), groupRewrites)
+	cases("exhaustive", 64, groupExhaustive)
+	cases("adversarial", 2*len(hugeSizes)+r.N(20, 28), groupAdversarial)
+	cases("values", r.N(300, 20000), groupValues)
+	cases("strings", r.N(50000, 20000000)/stringsPerCase, groupStrings)
+	cases("chain", r.N(400, 40000), groupChain)
 
 	r.Floor("values_roundtripped", int64(r.N(10000, 700000)))
 	r.Floor("types_generated", int64(r.N(300, 20000)))
